@@ -187,6 +187,8 @@ func (m *Member) intersectedView(topic topic, topicHex string, tpv *topicPeerVie
 		return true
 	})
 
+	verifYield(m.ID, "intersect")
+
 	myView := m.myMemberViewSorted(topic)
 	views[view{
 		size:    len(myView),
